@@ -44,6 +44,18 @@ fn one(out: &mut Out, n: usize, bonds: &[(usize, usize, f64)], count: &mut usize
         let mut uniq: Vec<(usize, usize, f64)> = vec![];
         for (i, j, o) in bonds { let (a, b) = if i < j { (*i, *j) } else { (*j, *i) }; if mat[a * n + b] == 0.0 { mat[a * n + b] = *o; uniq.push((a, b, *o)); } }
         if crate::s_matrix::panic_kind(|| w.set_bond_orders(mat.clone())).is_some() { return; }
+        // ... and, for a few small graphs, once more after the 3-D build: the build may move atoms, the lists stay the graph's
+        if *count % 30 == 0 && n <= 6 && !uniq.is_empty() {
+            if crate::s_matrix::panic_kind(|| w.build_3d()).is_none() {
+                let got3 = canon_conn(&connectivity(w.molecule()));
+                let want3 = canon_conn(&reference_conn(n, &uniq));
+                if got3 != want3 {
+                    out.oracle_fail(&format!("after build_3d the connectivity is not the bond graph's: got {} want {}", got3, want3),
+                                    &format!("graph {} {} (set through set_bond_orders, then build_3d)", n, bonds_text(&uniq)));
+                }
+            }
+            return;
+        }
         let got2 = canon_conn(&connectivity(w.molecule()));
         let want2 = canon_conn(&reference_conn(n, &uniq));
         if got2 != want2 {
